@@ -575,6 +575,144 @@ def c04_all():
     return c04() + c04_generated() + [{"kind": "stack_model", "depth": 2}]
 
 
+# ---- C08: include shares the caller's scope, render isolates the partial (reference interpreter) ----
+class _Brk(Exception):
+    def __init__(self, kind):
+        self.kind = kind
+
+
+def _c08_run(main, partials, data):
+    counters = {}
+
+    class Ctx:
+        def __init__(self, scopes, glob, data, isolated):
+            self.scopes, self.glob, self.data, self.isolated = scopes, glob, data, isolated
+
+        def lookup(self, n):
+            for sc in reversed(self.scopes):
+                if n in sc:
+                    return sc[n]
+            if n in self.glob:
+                return self.glob[n]
+            if n in self.data:
+                return self.data[n]
+            if not self.isolated and n in counters:
+                return counters[n]
+            raise _Undefined(n)
+
+    def val(ctx, e):
+        return ctx.lookup(e[1]) if e[0] == "var" else e[1]
+
+    def run(stmts, ctx, sink):
+        """returns the pending interrupt (None / 'break' / 'continue') - a template stops at the first interrupt"""
+        for st in stmts:
+            k = st[0]
+            if k == "print":
+                sink.append(str(ctx.lookup(st[1])))
+            elif k == "text":
+                sink.append(st[1])
+            elif k == "assign":
+                ctx.glob[st[1]] = val(ctx, st[2])
+            elif k == "incr":
+                v = counters.get(st[1], 0)
+                sink.append(str(v))
+                counters[st[1]] = v + 1
+            elif k in ("break", "continue"):
+                return k
+            elif k == "for":
+                for i in range(st[2], st[3] + 1):
+                    ctx.scopes.append({st[1]: i})
+                    intr = run(st[4], ctx, sink)
+                    ctx.scopes.pop()
+                    if intr == "break":
+                        break
+            elif k == "include":
+                if st[1] not in partials:
+                    raise _Undefined("partial")
+                args = {a: val(ctx, e) for a, e in st[2]}
+                ctx.scopes.append(args)
+                intr = run(partials[st[1]], ctx, sink)
+                ctx.scopes.pop()
+                if intr:
+                    return intr          # a break inside an included partial ends the caller's loop
+            elif k == "render":
+                if st[1] not in partials:
+                    raise _Undefined("partial")
+                args = {a: val(ctx, e) for a, e in st[2]}
+                inner = Ctx([], {}, args, True)      # its own assignments may rebind the arguments
+                run(partials[st[1]], inner, sink)   # neither assignments nor break/continue reach the caller
+        return None
+    out = []
+    try:
+        run(main, Ctx([], {}, dict(data), False), out)
+    except _Undefined:
+        return None
+    return "".join(out)
+
+
+def _c08_src(stmts):
+    t = ""
+    for st in stmts:
+        k = st[0]
+        e = lambda x: (x[1] if x[0] == "var" else (str(x[1]) if isinstance(x[1], int) else "'%s'" % x[1]))
+        if k == "print":
+            t += "{{ %s }}" % st[1]
+        elif k == "text":
+            t += st[1]
+        elif k == "assign":
+            t += "{%% assign %s = %s %%}" % (st[1], e(st[2]))
+        elif k == "incr":
+            t += "{%% increment %s %%}" % st[1]
+        elif k in ("break", "continue"):
+            t += "{%% %s %%}" % k
+        elif k == "for":
+            t += "{%% for %s in (%d..%d) %%}%s{%% endfor %%}" % (st[1], st[2], st[3], _c08_src(st[4]))
+        elif k == "include":
+            t += "{%% include '%s' %s %%}" % (st[1], ", ".join("%s: %s" % (a, e(x)) for a, x in st[2]))
+        elif k == "render":
+            t += "{%% render '%s'%s %%}" % (st[1], "".join(", %s: %s" % (a, e(x)) for a, x in st[2]))
+    return t
+
+
+def c08():
+    out = []
+    partial_bodies = {
+        "show": [("text", "<"), ("print", "v"), ("text", ">")],
+        "reads_x": [("text", "["), ("print", "x"), ("text", "]")],
+        "assigns": [("assign", "x", ("lit", "set-by-partial")), ("text", "a")],
+        "counts": [("incr", "c")],
+        "breaks": [("text", "b"), ("break",), ("text", "NEVER")],
+        "continues": [("text", "c"), ("continue",), ("text", "NEVER")],
+        "shadow": [("print", "v"), ("assign", "v", ("lit", "inner")), ("print", "v")],
+    }
+    srcs = {k: _c08_src(v) for k, v in partial_bodies.items()}
+    callers = []
+    for tag in ("include", "render"):
+        for pname in partial_bodies:
+            for args in ([], [("v", ("lit", "arg"))], [("v", ("var", "x"))], [("x", ("lit", 7))]):
+                call = (tag, pname, args)
+                callers.append([call, ("text", "|"), ("print", "x")])
+                callers.append([("assign", "x", ("lit", "A")), call, ("text", "|"), ("print", "x")])
+                callers.append([("for", "i", 1, 3, [call, ("print", "i")]), ("text", "|"), ("print", "x")])
+                callers.append([("for", "x", 1, 2, [call]), ("text", "|"), ("incr", "c"), ("print", "x")])
+        callers.append([(tag, "missing", [])])
+        callers.append([("text", "before"), ("for", "i", 1, 2, [(tag, "missing", [])])])
+    for prog in callers:
+        for data in ({"x": "d"}, {}):
+            exp = _c08_run(prog, partial_bodies, data)
+            out.append(R(_c08_src(prog), {"output": exp} if exp is not None else {"error": True}, data, srcs, "include/render reference interpreter"))
+    # a partial that does not parse fails only when it is used
+    out.append(R("ok{% if false %}{% include 'broken' %}{% endif %}", {"output": "ok"}, {}, {"broken": "{% if %}"}))
+    out.append(R("{% include 'broken' %}", {"error": True}, {}, {"broken": "{% if %}"}))
+    out.append(R("{% render 'broken' %}", {"error": True}, {}, {"broken": "{% if %}"}))
+    # render ... with / for
+    out.append(R("{% render 'show' with 'W' as v %}", {"output": "<W>"}, {}, srcs))
+    out.append(R("{% render 'fl' for (1..3) as v %}", {"output": "1:1:3:true:false;2:2:3:false:false;3:3:3:false:true;"}, {},
+                 {"fl": "{{ v }}:{{ forloop.index }}:{{ forloop.length }}:{{ forloop.first }}:{{ forloop.last }};"}))
+    out.append(R("{% for o in (1..2) %}{% render 'pl' for (1..2) as v %}{% endfor %}", {"error": True}, {}, {"pl": "{{ forloop.parentloop.index }}"}, "the caller's loops are invisible inside render"))
+    return out
+
+
 def c09():
     stateful = "{% assign a = x %}{% increment c %}{% cycle 'p', 'q', 'r' %}{% for i in (1..3) %}{% ifchanged %}{{ i | divided_by: 2 }}{% endifchanged %}{% if i == 2 %}{% break %}{% endif %}{% endfor %}{{ a }}{% capture k %}{{ a }}!{% endcapture %}{{ k }}{% decrement c %}"
     failing_midway = "{% increment c %}{% cycle 'p', 'q' %}{% for i in (1..3) %}{{ i }}{% if i == 2 %}{% break %}{{ missing }}{% endif %}{% endfor %}{% capture k %}{{ x | divided_by: 0 }}{% endcapture %}"
@@ -594,7 +732,7 @@ def c12():
     return [{"kind": "conversions"}]
 
 
-BATTERIES = {"C09": c09, "C11": c11, "C12": c12, "C04": c04_all, "C05": c05, "C06": c06, "C07": c07, "C10": c10, "C13": c13, "C15": c15, "C18": c18}
+BATTERIES = {"C08": c08, "C09": c09, "C11": c11, "C12": c12, "C04": c04_all, "C05": c05, "C06": c06, "C07": c07, "C10": c10, "C13": c13, "C15": c15, "C18": c18}
 
 
 def battery(prop, thorough=False):
